@@ -267,27 +267,87 @@ theorem mapE_zip_of_mapE {α β} (f : α → Except Err β) (g : α × β → Ex
         subst h
         simp only [List.zip_cons_cons, mapE, hg a x ha, mapE_zip_of_mapE f g hg t xs ht, bind, Except.bind, pure, Except.pure]
 
-theorem tfStepParam_of_tfParam (c : TFCfg) (a : List Nat) (b : TFParam) (h : tfParam c a = .ok b) :
+theorem tfStepParam_of_tfParam (c : TFCfg) (a : TFInput) (b : TFParam) (h : tfParam c a = .ok b) :
     tfStepParam c (a, b) = .ok b := by
   simp [tfStepParam, h, pure, Except.pure]
 
-theorem tfStep_init (c : TFCfg) (ps : List (List Nat)) (L : TFLayout) (h : tfInit c ps = .ok L) :
-    tfStep c L = .ok L := by
+/-- shape of a successful `tfInit` -/
+theorem tfInit_ok (c : TFCfg) (ps : List (List Nat)) (L : TFLayout) (h : tfInit c ps = .ok L) :
+    tfValidate c = .ok () ∧ mapE (tfParam c) (tfInputs c ps) = .ok L.params ∧ L.inputs = tfInputs c ps := by
   unfold tfInit at h
   simp only [bind, Except.bind] at h
   cases hv : tfValidate c with
   | error e => simp [hv] at h
   | ok u =>
-    cases hm : mapE (tfParam c) ps with
+    cases hm : mapE (tfParam c) (tfInputs c ps) with
     | error e => simp [hv, hm] at h
     | ok l =>
       simp [hv, hm, pure, Except.pure] at h
       subst h
-      unfold tfStep
-      have hl := mapE_length _ _ _ hm
-      simp only [hl, ne_eq, not_true_eq_false, if_false]
-      simp only [mapE_zip_of_mapE (tfParam c) (tfStepParam c) (tfStepParam_of_tfParam c) ps l hm, bind, Except.bind, pure, Except.pure]
+      exact ⟨rfl, rfl, rfl⟩
 
+theorem tfStep_init (c : TFCfg) (ps : List (List Nat)) (L : TFLayout) (h : tfInit c ps = .ok L) :
+    tfStep c L = .ok L := by
+  obtain ⟨_, hm, hin⟩ := tfInit_ok c ps L h
+  unfold tfStep
+  have hl := mapE_length _ _ _ hm
+  rw [← hin] at hm hl
+  simp only [hl, ne_eq, not_true_eq_false, if_false]
+  simp only [mapE_zip_of_mapE (tfParam c) (tfStepParam c) (tfStepParam_of_tfParam c) L.inputs L.params hm,
+    bind, Except.bind, pure, Except.pure]
+
+theorem tfSteps_init (c : TFCfg) (ps : List (List Nat)) (L : TFLayout) (h : tfInit c ps = .ok L) (k : Nat) :
+    tfSteps c k L = .ok L := by
+  induction k with
+  | zero => rfl
+  | succ k ih => simp only [tfSteps, tfStep_init c ps L h, bind, Except.bind, ih]
+
+theorem mapE_error {α β} (f : α → Except Err β) : ∀ (l : List α) (e : Err), mapE f l = .error e →
+    ∃ a ∈ l, f a = .error e
+  | [], e, h => by simp [mapE, pure, Except.pure] at h
+  | a :: t, e, h => by
+    simp only [mapE, bind, Except.bind] at h
+    cases ha : f a with
+    | error e' =>
+      simp [ha] at h
+      subst h
+      exact ⟨a, List.mem_cons_self, ha⟩
+    | ok x =>
+      cases ht : mapE f t with
+      | error e' =>
+        simp [ha, ht] at h
+        subst h
+        obtain ⟨b, hb, hfb⟩ := mapE_error f t _ ht
+        exact ⟨b, List.mem_cons_of_mem _ hb, hfb⟩
+      | ok xs => simp [ha, ht, pure, Except.pure] at h
+
+theorem tfValidate_error (c : TFCfg) (e : Err) (h : tfValidate c = .error e) :
+    e = .reject .construct .valueError := by
+  unfold tfValidate at h
+  split at h
+  · simp [rejC] at h; exact h.symm
+  · cases h
+
+/-- an accepted Sketchy configuration carries its options object -/
+theorem tfValidate_sk (c : TFCfg) (h : tfValidate c = .ok ()) (hs : c.sketchy = true) : c.sk ≠ none := by
+  intro hn
+  unfold tfValidate at h
+  have : tfInvalid c = true := by simp [tfInvalid, hs, hn]
+  simp [this, rejC] at h
+
+theorem tfParam_error (c : TFCfg) (x : TFInput) (e : Err) (hsk : c.sketchy = true → c.sk ≠ none)
+    (h : tfParam c x = .error e) : e = .reject .init .valueError := by
+  unfold tfParam at h
+  simp only [] at h
+  split at h
+  · cases h
+  · split at h
+    · rename_i hs
+      split at h
+      · cases h
+      · rename_i hn; exact absurd hn (hsk hs)
+    · repeat' split at h
+      all_goals first | (cases h; rfl) | cases h
 
 theorem qvSig_momQV (c : Cfg) (shape : List Nat) : qvSig (momQV c shape) = declMom c shape := by
   unfold momQV declMom
